@@ -17,8 +17,7 @@ FAULT_CONJ = {"at_most_one_error_then_nothing", "err_item_carries_the_user_error
 
 
 def builders(ctx):
-    r = vlib.tlc("MC_IvpBuilder", workers=4, timeout=600, deque=False)
-    ctx.add_tlc(r, e1=True)
+    r = vlib.e1(ctx, "MC_IvpBuilder", "MC_IvpBuilder", ["Call", "DoSolve"], workers=4, timeout=600)
     ctx.notes["e1_builder"] = {"module": "MC_IvpBuilder", "distinct_states": r.distinct,
                                "invariants": "MinNeverAboveMax EndAfterStart OnlyPositiveStored ErrorsAreDedicated"}
     p = ctx.path("builder-cases.ndjson")
